@@ -99,6 +99,14 @@ def spawn(script, argv, cwd, env, stdin=b'', shim_cfg=None, now=None, tty=False,
                 os.environ[k] = v
             os.environ['TRASHCLI_VERIF_SHIM'] = '1'
             os.chdir(cwd)
+            # the signal dispositions of a freshly started interpreter, whatever the check itself inherited (a job started
+            # in the background of a non-interactive shell has SIGINT ignored, nohup ignores SIGHUP)
+            signal.signal(signal.SIGINT, signal.default_int_handler)
+            for sg in (signal.SIGTERM, signal.SIGHUP, signal.SIGQUIT, signal.SIGPIPE):
+                try:
+                    signal.signal(sg, signal.SIG_DFL if sg != signal.SIGPIPE else signal.SIG_IGN)
+                except (OSError, ValueError):
+                    pass
             from harness import shim
             if now is not None:
                 shim.NOW[0] = tuple(now)
